@@ -9,6 +9,7 @@ from typing import Iterable
 
 from liquid2.builtin import LambdaExpression
 from liquid2.builtin import PositionalArgument
+from liquid2.builtin.expressions import _eq
 from liquid2.builtin.expressions import is_truthy
 from liquid2.exceptions import LiquidTypeError
 from liquid2.filter import sequence_arg
@@ -84,11 +85,11 @@ class FindFilter:
                     return item
 
         elif value is not None and not is_undefined(value):
-            return next((itm for itm in left if _getitem(itm, key) == value), None)
+            return next((itm for itm in left if _eq(_getitem(itm, key), value)), None)
 
         else:
             return next(
-                (itm for itm in left if _getitem(itm, key) not in (False, None)),
+                (itm for itm in left if is_truthy(_getitem(itm, key))),
                 None,
             )
 
@@ -116,7 +117,7 @@ class FindIndexFilter(FindFilter):
 
         elif value is not None and not is_undefined(value):
             return next(
-                (i for i, itm in enumerate(left) if _getitem(itm, key) == value),
+                (i for i, itm in enumerate(left) if _eq(_getitem(itm, key), value)),
                 None,
             )
 
@@ -125,7 +126,7 @@ class FindIndexFilter(FindFilter):
                 (
                     i
                     for i, itm in enumerate(left)
-                    if _getitem(itm, key) not in (False, None)
+                    if is_truthy(_getitem(itm, key))
                 ),
                 None,
             )
@@ -154,12 +155,12 @@ class HasFilter(FindFilter):
 
         elif value is not None and not is_undefined(value):
             return any(
-                (itm for itm in left if _getitem(itm, key) == value),
+                (itm for itm in left if _eq(_getitem(itm, key), value)),
             )
 
         else:
             return any(
-                (itm for itm in left if _getitem(itm, key) not in (False, None)),
+                (itm for itm in left if is_truthy(_getitem(itm, key))),
             )
 
         return False
